@@ -18,7 +18,7 @@ impl Property for C06 {
             real: &["src/entry.rs (reload counter, reloaded_global flag, ReloadWatcher, ReloadId)", "src/hot_reloading/paths.rs (to_reload, events for unknown entries dropped)", "src/hot_reloading/dependencies.rs (visited set, topological order)", "src/anycache.rs (reload_untyped)"],
             stub: &["channels / locks / scheduler (detsim)", "Source (in-memory); notification delivery fault layer (duplicates, batches, noise, never sent)"],
             assumptions: &["the affected set is the reverse closure over the dependency sets registered at the start of the pass (the model mirrors what each load recorded)", "runs in which a reload caches a previously absent asset are stopped at that round (counted)"],
-            runs: (16_000, 800_000),
+            runs: (45_000, 1_500_000),
         }
     }
     fn generate(&self, g: &mut SplitMix, k: &mut SplitMix, _tier: Tier) -> (Knobs, Value) {
